@@ -6,6 +6,7 @@ import (
 	"encoding/json"
 	"fmt"
 	"os"
+	"runtime"
 	"runtime/debug"
 	"strings"
 	"testing"
@@ -114,8 +115,8 @@ func check[C any](r *runner, gen func(rt *rapid.T) C, eval func(c C) string) {
 			r.t.Fatalf("INFRA: %v", err)
 		}
 		if msg := guarded(eval, c); msg != "" {
-			if strings.HasPrefix(msg, "INFRA:") {
-				r.t.Fatalf("%s", msg)
+			if strings.HasPrefix(msg, "INFRA:") || strings.HasPrefix(msg, "HANG") {
+				r.t.Fatalf("INFRA: %s", msg)
 			}
 			r.col.Violation(ev.Violation{Msg: msg, Replay: rp})
 			r.t.Fatalf("replay fails: %s", msg)
@@ -131,9 +132,12 @@ func check[C any](r *runner, gen func(rt *rapid.T) C, eval func(c C) string) {
 			cb, _ := json.Marshal(c)
 			r.rec.Record(cb, msg)
 			if len(msg) >= 4 && msg[:4] == "HANG" {
-				// a wedged goroutine cannot be stopped: report and leave
-				r.rec.Flush(r.col)
+				// a wedged goroutine cannot be stopped: leave. A time limit is never a
+				// verdict: the driver reports the run as inconclusive (exit 2) and keeps
+				// the case for inspection.
+				r.col.Note("INCONCLUSIVE: " + msg + " (case kept as " + r.rec.BestPath + ")")
 				r.col.Write(os.Getenv("VERIF_STATS"))
+				fmt.Fprintln(os.Stderr, "INFRA: "+msg)
 				os.Exit(3)
 			}
 			rt.Fatalf("%s", msg)
@@ -146,6 +150,14 @@ func check[C any](r *runner, gen func(rt *rapid.T) C, eval func(c C) string) {
 // under the race detector up to a second), so only code that does not return
 // at all can trip it.
 var watchdog = 180 * time.Second
+
+func init() {
+	if s := os.Getenv("VERIF_WATCHDOG"); s != "" {
+		if d, err := time.ParseDuration(s); err == nil {
+			watchdog = d
+		}
+	}
+}
 
 // guarded evaluates one case with a watchdog: generated code that never
 // returns would otherwise wedge the whole batch.
@@ -166,6 +178,8 @@ func guarded[C any](eval func(c C) string, c C) string {
 	case x := <-ch:
 		return x.msg
 	case <-time.After(watchdog):
-		return fmt.Sprintf("HANG: the generated code did not return within %v on this case", watchdog)
+		buf := make([]byte, 1<<18)
+		n := runtime.Stack(buf, true)
+		return fmt.Sprintf("HANG: the generated code did not return within %v on this case\n%s", watchdog, buf[:n])
 	}
 }
